@@ -371,7 +371,7 @@ class LogicConv3d(nn.Module):
         implementation: str = None,
         connections: str = "random",  # or 'random-unique'
         stride: int = 1,
-        padding: int = None,
+        padding: int = 0,
     ):
         """Initialize the 3d logic convolutional layer.
 
@@ -436,6 +436,13 @@ class LogicConv3d(nn.Module):
             x = GradFactor.apply(x, self.grad_factor)
         current_level = x
         # apply zero padding
+        if self.padding > 0:
+            current_level = torch.nn.functional.pad(
+                current_level,
+                (self.padding,) * 6,
+                mode="constant",
+                value=0
+            )
         left_indices, right_indices = self.indices[0]
         a_h, a_w, a_d, a_c = (
             left_indices[..., 0],
